@@ -1,4 +1,4 @@
-\* quick profile A (the driver writes one cfg per profile, see harness/c04_params.py)
+\* quick profile A, slice 0 (the driver writes one cfg per profile, see harness/c04_params.py)
 CONSTANTS
   MaxRecs = 2
   MaxItems = 2
@@ -15,7 +15,7 @@ CONSTANTS
   TailLowKinds = {"none", "val"}
   TailUpKinds = {"none", "val"}
   NEditVals = 1
-  NSlices = 1
+  NSlices = 6
   Slice = 0
 INIT Init
 NEXT Next
